@@ -721,9 +721,12 @@ func (e *Engine) assignOne(st *State, l, r ast.Expr, exit exitFn) []*State {
 	case isNonNilExpr(r):
 		e.learn(st, f.NilKey(l), False, l)
 	default:
-		if g, ok := f.globalName(r); ok && isErrorType(tv.Type) {
+		if g, ok := f.globalName(r); ok {
+			// x = <package-level variable> (error sentinel, shared route, ...)
 			e.learn(st, "eq:"+lr+"==@"+g, True, l)
-			e.learn(st, f.NilKey(l), False, l)
+			if isErrorType(tv.Type) {
+				e.learn(st, f.NilKey(l), False, l)
+			}
 		}
 		if copyNil != Unknown {
 			e.learn(st, "nil:"+lr, copyNil, l, r)
